@@ -20,9 +20,17 @@ func TestDebugReplay(t *testing.T) {
 	s, _ := dbgen.NewSession(dbgen.HeapOpener(replayChunk()))
 	defer s.Close()
 	for i, st := range steps {
+		if st.Kind == dbgen.KReopen {
+			fmt.Printf("   before close: size=%d (mod chunk %d) state off=%d\n", s.DB.Store.Size(), s.DB.Store.Size()%uint64(replayChunk()), s.DB.GetState().Off)
+			store := s.DB.Store
+			defer func() { fmt.Printf("   after close: size=%d (mod chunk %d)\n", store.Size(), store.Size()%uint64(replayChunk())) }()
+		}
 		res := s.Apply(st)
 		sc, ic := s.DB.GetState().Meta.VerifChains()
 		fmt.Printf("%2d %-8s %-50.50s acc=%v err=%q\n     schema %+v info %+v\n", i, st.Kind, st.Text, res.Accepted, res.Err, sc, ic)
+		if os.Getenv("VERIF_DEBUG_DUMP") != "" {
+			fmt.Print(dbgen.Dump(s.DB))
+		}
 		for _, n := range dbgen.TableUniverse {
 			if a, b, ok := s.DB.GetState().Meta.VerifCreated(n); ok {
 				fmt.Printf("     %s created schema=%d info=%d\n", n, a, b)
